@@ -45,7 +45,13 @@ READ_COMBOS = [('3m', ['5m']), ('30m', ['45m']), ('45m', ['1h']), ('5m', ['15m']
                ('1m', ['3m']), ('15m', ['5m']), ('3m', ['5m', '15m'])]
 
 
-def gen_item(rng, idx, quick, ragged=False):
+# ragged tails: every residue class of the length modulo the chunk, with an "eager" policy that enters at market whenever it is
+# flat (exits close enough to rest into the tail and fill there) - an extra or missing strategy execution on the incomplete
+# trading candle then shows up in the orders as well as in the recorded strategy steps
+RAGGED_COMBOS = [('5m', []), ('3m', []), ('15m', ['1h']), ('5m', ['15m']), ('15m', ['5m'])]
+
+
+def gen_item(rng, idx, quick, ragged=False, force=None):
     typ = ['futures', 'spot'][idx % 2]
     ttf = TFS[(idx // 2) % len(TFS)]
     reads = (idx % 4 == 3) and not ragged
@@ -53,7 +59,10 @@ def gen_item(rng, idx, quick, ragged=False):
     bigger = [t for t in TFS + ['2h', '4h'] if R.TFM[t] > tt and R.TFM[t] % tt == 0]
     smaller = [t for t in TFS if 1 < R.TFM[t] < tt and tt % R.TFM[t] == 0]
     c = rng.random()
-    if reads:
+    if force:
+        ttf, dtfs = force['ttf'], list(force['dtfs'])
+        tt = R.TFM[ttf]
+    elif reads:
         ttf, dtfs = READ_COMBOS[(idx // 4) % len(READ_COMBOS)]
         dtfs = list(dtfs)
         tt = R.TFM[ttf]
@@ -69,7 +78,7 @@ def gen_item(rng, idx, quick, ragged=False):
     L = 1
     for m in mins:
         L = L * m // math.gcd(L, m)
-    steps = rng.randint(40, 70 if quick else 140)        # strategy steps
+    steps = rng.randint(40, 70 if quick else 140) if not force else rng.randint(6, 30)       # strategy steps
     n = tt * steps
     n = max(L * 2, n - n % L)
     chunk = 0
@@ -78,7 +87,7 @@ def gen_item(rng, idx, quick, ragged=False):
     if ragged:
         if chunk == 1:
             return None
-        n += rng.randint(1, chunk - 1)
+        n += force['residue'] if force else rng.randint(1, chunk - 1)
     step = rng.choice([1, 2])
     wick = rng.choice([1, 2])
     # a trading candle of tt minutes moves ~ (step+wick) * sqrt(tt) * 1.6; exits are placed well beyond that
@@ -92,6 +101,11 @@ def gen_item(rng, idx, quick, ragged=False):
            'max_entry_rows': rng.choice([1, 1, 2]), 'max_exit_rows': rng.choice([1, 1, 2]),
            'entry_offsets': rng.choice([(0, 0, -1, -2, 1, 2), (0, -1, -3, 2, 3), (0,), (-2, -1, 1, 2)]),
            'sl_dist': (span, span + 6), 'tp_dist': (span, span + 6), 'spot': typ == 'spot'}
+    if force:           # eager: long at market whenever flat, exits a few ticks away so that they rest into the tail and fill
+        near = max(2, span // 3)
+        pol.update({'entry_every': 1, 'long_phase': 0, 'allow_short': False, 'entry_offsets': (0,), 'max_entry_rows': 1,
+                    'max_exit_rows': 1, 'p_cancel': 0.0, 'p_edit': 0.0, 'p_liquidate': 0.0,
+                    'sl_dist': (near, near + 2), 'tp_dist': (near, near + 2)})
     return dict(typ=typ, nsym=1, ttf=ttf, dtfs=dtfs, warm=rng.choice([0, 0, 240]), n=n, seed=seed, policy=pol,
                 fee=rng.choice([0.0, 1 / 1024, 0.0006]), lev=rng.choice([1, 2, 5]),
                 levmode=rng.choice(['cross', 'cross', 'cross', 'isolated']), chunk=chunk, ragged=bool(ragged),
@@ -101,7 +115,9 @@ def gen_item(rng, idx, quick, ragged=False):
 
 def side(r):
     return {"fills": [dict(side=f['side'], type=f['type'], qty=f['qty'], price=f['price'], minute=f['minute']) for f in r['fills']],
-            "trades": r['trades'], "bal": r['bal'], "liq": r['liq'], "exc": r['exc'], "hooks": r['hooks'], "reads": r['reads']}
+            "trades": r['trades'], "bal": r['bal'], "liq": r['liq'], "exc": r['exc'], "hooks": r['hooks'], "reads": r['reads'],
+            # every strategy execution: index and clock of its before() call
+            "steps": [[int(e['f'][2]), e['t']] for e in r['seq'] if e['k'] == 'obs' and e['f'][0] == 'before']}
 
 
 def make_trace(tid, item, rn, rf):
@@ -148,7 +164,7 @@ def trace_part(ctx):
     R.warm_parent()
     rng = random.Random(ctx.seed)
     n_pairs = ctx.pick(220, 5000)
-    n_ragged = ctx.pick(12, 60)
+    n_ragged = ctx.pick(6, 60)
     items = [gen_item(rng, j, ctx.quick) for j in range(n_pairs)]
     rag = []
     j = 0
@@ -157,6 +173,15 @@ def trace_part(ctx):
         j += 1
         if it:
             rag.append(it)
+    for rep in range(ctx.pick(1, 6)):
+        for ttf, dtfs in RAGGED_COMBOS:
+            ch = 0
+            for m in [R.TFM[ttf]] + [R.TFM[d] for d in dtfs]:
+                ch = math.gcd(ch, m)
+            residues = list(range(1, ch)) if ch <= 5 else sorted(rng.sample(range(1, ch), 4))
+            for res in residues:
+                j += 1
+                rag.append(gen_item(rng, j, ctx.quick, ragged=True, force=dict(ttf=ttf, dtfs=dtfs, residue=res)))
     items += rag
     stats = {'judged': 0, 'agree': 0, 'discarded': {}}
     samples = []
